@@ -328,6 +328,14 @@ func runECase(ec ECase) (*Fail, []string, map[string]int, error) {
 			if attachedBefore > 0 {
 				continue
 			}
+			if len(addrs) > ec.RF {
+				// more replicas than the volume is configured for: refused as a whole
+				labels["start-with-more-than-RF-addresses"]++
+				if err == nil || len(vs.Replicas) > 0 {
+					return fail("bookkeeping|more-than-RF|after="+op.K, fmt.Sprintf("Start(%v) with RF=%d -> err=%v, %d replicas listed: %v", addrs, ec.RF, err, len(vs.Replicas), vs.Replicas), "C18"), trace, labels, nil
+				}
+				continue
+			}
 			if err != nil && len(vs.Replicas) == 0 {
 				// a start that failed half-way detaches what it had attached: those
 				// replicas were attached and are gone again - they have to register anew
